@@ -44,6 +44,7 @@ type layCase struct {
 	Args     []string          `json:"args"`
 	RunDir   string            `json:"run_dir"` // relative to root, "" = root, ".." = parent of root
 	UseCwd   bool              `json:"use_cwd_flag"`
+	CwdRel   bool              `json:"cwd_flag_relative"`
 	Existing map[string]string `json:"existing_packages"` // dir -> package name
 	root     string
 }
@@ -133,7 +134,7 @@ func genLayCase(r *rng.R, id int, base string) *layCase {
 		lc.Tree[f] = b.String()
 	}
 	// invocation
-	switch r.Intn(4) {
+	switch r.Intn(5) {
 	case 0:
 		lc.Args = []string{"gen", "./..."}
 	case 1:
@@ -145,6 +146,12 @@ func genLayCase(r *rng.R, id int, base string) *layCase {
 		lc.RunDir = ".."
 		lc.UseCwd = true
 		lc.Args = []string{"gen", "-cwd", lc.root, "./..."}
+	case 3:
+		// a RELATIVE -cwd, given from the parent directory
+		lc.RunDir = ".."
+		lc.UseCwd = true
+		lc.CwdRel = true
+		lc.Args = []string{"gen", "-cwd", filepath.Base(lc.root), "./..."}
 	default:
 		lc.Args = []string{"gen", lc.Module + "/..."}
 	}
@@ -158,6 +165,9 @@ func (lc *layCase) request() *sx.Node {
 	if lc.UseCwd {
 		cwd = lc.root
 		procwd = filepath.Dir(lc.root)
+		if lc.CwdRel {
+			cwd = filepath.Base(lc.root)
+		}
 	}
 	req := sx.H("place", sx.I(lc.ID), sx.H("cwd", sx.S(cwd)), sx.H("procwd", sx.S(procwd)), sx.H("cli"))
 	ld := sx.H("loaded")
@@ -191,10 +201,10 @@ func packageClauseOf(path string) string {
 }
 
 func runC15(e *env) error {
-	e.rep.Rule = "cases = scratch modules with 1-3 converters (interfaces and variables blocks) over 1-3 packages, output:file in {default, relative, parent, absolute, @cwd, sibling file} x output:package in {absent, path, path:name, :name} x existing/non-existing target package x shared output files x invocation {./..., explicit dirs, -cwd from another directory, module pattern}; the goverter binary built from /repo is run, the tree is snapshotted before/after, and created paths, package clauses and modes are compared with Gv.Layout (place / outputPath / resolveOutputPackage / guessAlias). Direct calls compare jennifer's guessAlias (via jen.NewFilePath) and path/filepath functions with the model. non-trivial = at least one output setting or several converters; distinct = canonical case"
+	e.rep.Rule = "cases = scratch modules with 1-3 converters (interfaces and variables blocks) over 1-3 packages, output:file in {default, relative, parent, absolute, @cwd, sibling file} x output:package in {absent, path, path:name, :name} x existing/non-existing target package x shared output files x invocation {./..., explicit dirs, -cwd (absolute and relative) from another directory, module pattern}; the goverter binary built from /repo is run, the tree is snapshotted before/after, and created paths, package clauses and modes are compared with Gv.Layout (place / outputPath / resolveOutputPackage / guessAlias). Direct calls compare jennifer's guessAlias (via jen.NewFilePath) and path/filepath functions with the model. non-trivial = at least one output setting or several converters; distinct = canonical case"
 	nCases := 48
 	if e.thorough {
-		nCases = 700
+		nCases = 700 * e.scale
 	}
 	bin := goverterBin(e)
 	base := filepath.Join(e.scratch, "c15")
